@@ -44,7 +44,7 @@ Definition regex_sites : list re_site := [
   (* internal/compiler/compiler.go:1114 *)
   mkReSite "internal/compiler" "compiler.go" "regexIndex" "MustCompile" "AddRegexFlags(r)"
     (TLocal "re") true [] true;
-  (* parser/parser.go:1040 *)
+  (* parser/parser.go:1043 *)
   mkReSite "parser" "parser.go" "nextRegex" "Compile" "compiler.AddRegexFlags(regex)"
     (TDiscard) false [] true
 ].
